@@ -173,7 +173,7 @@ class Session:
                     raise
                 live = "dump-failed"
             self.frame(["read"])
-        return digest([mode, fs, w.qi, w.n_merge, w.n_stub, live])
+        return digest([mode, fs, w.qi, w.n_merge, w.n_stub, w.n_stubself, live])
 
     def close(self):
         self.w.shutdown()
@@ -182,7 +182,7 @@ class Session:
 def alphabet(cls_key):
     steps = LC.LIVE_STEPS_C02 + LC.OPEN_STEPS_C02
     if cls_key != "mf":
-        steps = [s for s in steps if s[0] != "stub"]
+        steps = [s for s in steps if s[0] not in ("stub", "stubself")]
     return steps
 
 
